@@ -279,6 +279,30 @@ pub fn run(rep: &mut StageReport, tier: &str, seed: u64) {
         };
         cases.push(s);
     }
+    // history: the verdict on a string must not depend on which strings were judged before it — names recombined
+    // from the parts of names judged earlier (most of them accepted), and the fixed cases once more at the end
+    {
+        let fixed: Vec<String> = cases.iter().take(3000).cloned().collect();
+        let mut recombined = vec![];
+        for s in cases.iter().rev().take(4000) {
+            let t = s.trim_start_matches('/');
+            if let Some((a, b)) = t.split_once('/') {
+                if !a.is_empty() && !b.is_empty() && !b.contains('/') {
+                    recombined.push(format!("/{}/{}", b, a));
+                    recombined.push(format!("/{}/{}", a, a));
+                    recombined.push(format!("/{}{}/{}", RESERVED, a, b));
+                    recombined.push(format!("/{}/{}", RESERVED, b));
+                }
+            }
+        }
+        for t in ["selium", "selium-metrics", "seliumx", "selium_1"] {
+            cases.push(format!("/tenant-a/{}", t));
+            cases.push(format!("/{}/tenant-a", t));
+            cases.push(format!("/{}/{}", t, t));
+        }
+        cases.extend(recombined);
+        cases.extend(fixed);
+    }
     let mut zones = [0u64; 3];
     for (i, s) in cases.iter().enumerate() {
         rep.evaluations += 1;
